@@ -10,7 +10,7 @@
    No proofs in this file. *)
 From Coq Require Import List ZArith NArith Bool Arith String Ascii.
 Import ListNotations.
-Open Scope N_scope.
+Local Open Scope N_scope.
 
 (* ---------------------------------------------------------------- digits *)
 (* digit lists are most-significant first; a digit is an N below 10 *)
